@@ -91,6 +91,18 @@ func init() {
 			vc.prog.Assumed[stdDocs["strings.Contains"]] = true
 			return []*Term{Ge(vc.indexModel(s, args[0], args[1], false), IntLit(0))}
 		},
+		"runtime.GOMAXPROCS": func(vc *VC, s *State, call *ast.CallExpr, args []*Term) []*Term {
+			vc.prog.Assumed["runtime.GOMAXPROCS returns the previous setting, a positive number; no effect on program state"] = true
+			r := Fresh("gomaxprocs", SInt)
+			s.assume(And(Ge(r, IntLit(1)), Le(r, BigLit("9223372036854775807"))))
+			return []*Term{r}
+		},
+		"os.Getwd": func(vc *VC, s *State, call *ast.CallExpr, args []*Term) []*Term {
+			vc.prog.Assumed["os.Getwd: no effect on program state; result unconstrained"] = true
+			e := Fresh("err", SInt)
+			s.assume(Ge(e, IntLit(0)))
+			return []*Term{Fresh("wd", SStr), e}
+		},
 		"strings.Split": func(vc *VC, s *State, call *ast.CallExpr, args []*Term) []*Term {
 			vc.prog.Assumed["strings.Split(s, sep) with non-empty sep: at least one piece; the last piece is s after the last occurrence of sep (s itself if sep does not occur)"] = true
 			T := types.NewSlice(types.Typ[types.String])
